@@ -164,6 +164,14 @@ def scenarios():
     S('cif_value_get_item_by_key (absent)', 'val.getkey V3 %s R0' % u('zz'), obs=['val.dump V3'], modifies=False)
     S('cif_value_remove_item_by_key (hand over)', 'val.remkey V3 %s V5' % u('K2'), obs=['val.dump V3'], retry=False)
     S('cif_value_remove_item_by_key (discard)', 'val.remkey V3 %s -' % u('e\u0301'), obs=['val.dump V3'], retry=False)
+    # composite values whose serialised form outgrows the initial 512-byte buffer several times (buffer growth and its fall-back)
+    bigl = 'val.new V7 %s' % lit(('l', [('s', 'element number %03d' % i, True) for i in range(120)]))
+    S('cif_container_set_value (list of 120 strings: serialisation buffer growth)', 'item.set H2 %s V7' % u('_bigl'), setup=[bigl])
+    S('cif_container_get_value (list of 120 strings)', 'item.get H2 %s V5' % u('_bigl'), setup=[bigl, 'item.set H2 %s V7' % u('_bigl')], modifies=False, after=['val.count V5'])
+    S('cif_loop_add_packet (packet with a list of 120 strings)', 'loop.addpkt L0 P0', setup=[bigl, 'pkt.set P0 %s V7' % u('_c')])
+    S('cif_pktitr_update_packet (list of 120 strings)', 'itr.update I0 P1', setup=[bigl, 'itr.open L0 I0', 'itr.next I0', 'pkt.create P1 1 %s' % u('_c'), 'pkt.set P1 %s V7' % u('_c')],
+      obs=[], after=['itr.close I0', 'dump C0', 'autocommit C0'], iterator=True)
+    S('cif_loop_add_item (default value: list of 120 strings)', 'loop.additem L0 %s V7' % u('_d'), setup=[bigl])
     # hashes large enough that adding an element makes uthash grow its bucket array (the second way an insertion can fail)
     if BIG:
         nt, npk = BIG
